@@ -6,8 +6,12 @@
 package bscript
 
 //@ func bscript.DecodeParts
+//@   bytes token
 //@   ensures[decode_nonempty] (=> (and (= err nil) (> (len b0) 0)) (>= (len result) 1))
+//@   ensures[C15.decode_first_push] (=> (and (= err nil) (>= (len b0) 1) (<= 1 (bat (old (bytes b0)) 0)) (<= (bat (old (bytes b0)) 0) 75)) (and (>= (len result) 1) (= (bytes (at result 0)) (bsub (old (bytes b0)) 1 (+ 1 (bat (old (bytes b0)) 0))))))
 //@   loop 0 invariant (or (>= (len r) 1) (= (len b) (len b0)))
+//@   loop 0 invariant (and (= (arr b) (arr b0)) (>= (off b) (off b0)))
+//@   loop 0 invariant (or (and (= (len r) 0) (= b b0)) (and (>= (len r) 1) (=> (and (<= 1 (bat (old (bytes b0)) 0)) (<= (bat (old (bytes b0)) 0) 75)) (and (= (arr (at r 0)) (arr b0)) (= (off (at r 0)) (+ (off b0) 1)) (= (len (at r 0)) (bat (old (bytes b0)) 0)) (>= (off b) (+ (off (at r 0)) (len (at r 0)))) (= (bytes (at r 0)) (bsub (old (bytes b0)) 1 (+ 1 (bat (old (bytes b0)) 0))))))))
 //@   loop 0 decreases (len b)
 
 //@ func bscript.isP2PKHInscriptionHelper
@@ -149,3 +153,7 @@ package bscript
 //@   bytes token
 //@   ensures[C15.valid_only_if] (=> r0 (and (a25ok (bytes a58)) (spec.a25_valid (a25dec (bytes a58)))))
 //@   ensures[C15.valid_err] (= r0 (= r1 nil))
+// recovery of the key hash from a P2PKH script (C15): through the first-push contract of DecodeParts
+//@ func bscript.(*Script).PublicKeyHash
+//@   bytes token
+//@   ensures[C15.pkh_recovered] (=> (and (not (nil? s)) (= err nil) (= (blen (old (bytes s))) 25) (= (bat (old (bytes s)) 0) 118) (= (bat (old (bytes s)) 1) 169) (= (bat (old (bytes s)) 2) 20)) (= (bytes r0) (bsub (old (bytes s)) 3 23)))
